@@ -754,3 +754,58 @@ Example C11_init_example :
     = Ok (mkInit [mkITrak 1 H_VIDE 90000 [mkSE K_AVC [1; 2; 3]]; mkITrak 2 H_SOUN 48000 [mkSE K_MP4A [4; 5]]]
                  (Some [mkITrex 1 1 512 0 65536; mkITrex 2 1 1024 9 0])).
 Proof. vm_compute. repeat split. Qed.
+
+(* ---- total forms WITH trun optimisation, and tracks without a sample in an interval ----
+   One multi-track segment (CreateMultiTrackFragment(ids) + per track AddFullSampleToTrack of its samples, in track
+   order + Fragment.Encode), EncOptimize on or off, any number of tracks, any of them (also all) without a sample:
+   for pairwise different ids, Size = len(Data), decode times consistent with the durations and the input of the
+   segment below 2 GiB the segment IS written (OptimizeTfhdTrun of the first traf's first trun cannot fail, no data
+   offset is 0) and every track reads back exactly what was added to it (nothing for a track without samples). *)
+From V.c11 Require Import C11MuxProofs C11OptTotalProofs.
+Theorem C11_mux_segment_total_opt : forall opt ids (g : list (N * list C05Model.fullsample)) pos0,
+  NoDup ids -> ids <> [] -> map fst g = ids ->
+  Forall (fun p => Forall C05ReadProofs.sized_f (snd p) /\ C05RoundProofs.consistent (snd p)) g ->
+  64 * g_count g + g_bytes g + 40 * lenN ids + 300 < 2147483648 -> pos0 < 4611686018427387904 ->
+  exists fe, write_mux_segment opt ids g = Ok fe /\
+    forall tx : C05Model.trex, read_back tx pos0 [] fe = Ok (pick_track (tx_track tx) g).
+Proof. exact write_mux_segment_total. Qed.
+Print Assumptions C11_mux_segment_total_opt.
+
+(* no track has a sample in the interval: the multiplexed writer still writes the (empty) segment, with and without
+   optimisation, and every reader gets no sample from it *)
+Theorem C11_mux_segment_empty : forall opt ids pos0,
+  NoDup ids -> ids <> [] -> lenN ids < 1000000 -> pos0 < 4611686018427387904 ->
+  exists fe, write_mux_segment opt ids (map (fun T => (T, [])) ids) = Ok fe /\
+    forall tx : C05Model.trex, read_back tx pos0 [] fe = Ok [].
+Proof. exact write_mux_segment_empty. Qed.
+Print Assumptions C11_mux_segment_empty.
+
+(* the multiplexed writer over all segments, ANY optimisation setting (C11_segmenter_mux_total is the opt = false
+   instance the tool runs); intervals may be empty (fst iv = snd iv + 1: the track has no sample in that segment) *)
+Theorem C11_segmenter_mux_total_opt : forall opt (f : pfile) pos0 (trs : list strack) nsegs,
+  NoDup (map st_id trs) -> trs <> [] -> total_samples trs < 4294967296 -> (1 <= nsegs)%nat ->
+  pos0 < 4611686018427387904 ->
+  Forall (fun t => C09Spec.consistent (st_tb t) = true /\ data_ok f (st_tb t) = true /\
+                   length (st_ivs t) = nsegs /\
+                   concat (map C11Model.range (st_ivs t)) = seqN1 (nsamples (st_tb t)) /\
+                   Forall (fun iv => fst iv <= snd iv + 1) (st_ivs t)) trs ->
+  forallb (mux_seg_small_opt trs) (seq 0 nsegs) = true ->
+  exists fes, mux_segments opt f trs nsegs = Ok fes /\
+    Forall (fun t => forall tx : C05Model.trex, tx_track tx = st_id t ->
+              exists outs, read_all (read_back tx pos0 []) fes = Ok outs /\
+                           map Some (concat outs) = expansion f (st_tb t)) trs.
+Proof. exact mux_total_any. Qed.
+Print Assumptions C11_segmenter_mux_total_opt.
+
+(* a single-track fragment WITHOUT samples cannot be encoded with optimisation (OptimizeTfhdTrun: "no samples in
+   trun"): the reason Resegment's possibly empty first segment is covered by C11_write_segment_empty (no optimisation)
+   only, and the segmenter's single-track writers skip a track without samples in an interval *)
+Theorem C11_write_segment_empty_opt_fails : forall T, write_segment true T [] = Err.
+Proof. exact write_segment_empty_opt_fails. Qed.
+Print Assumptions C11_write_segment_empty_opt_fails.
+
+(* hypotheses satisfiable: two tracks, the audio track has NO sample in the second segment *)
+Example C11_segmenter_mux_total_opt_example :
+  forallb (mux_seg_small_opt [(ex_e2e_tb, 1, [(1, 4); (5, 7)]); (ex_e2e_audio_tb, 2, [(1, 5); (6, 5)])]) (seq 0 2) = true /\
+  concat (map C11Model.range [(1, 5); (6, 5)]) = seqN1 5.
+Proof. vm_compute. split; reflexivity. Qed.
